@@ -56,7 +56,14 @@ func Emit(fn string, args []string, o string) {
 	out.Write(b)
 	out.WriteByte('\n')
 }
+var violCount = map[string]int{}
+
+// Viol reports a direct-oracle failure; at most 3 inputs per key are printed.
 func Viol(key, desc string, in any) {
+	violCount[key]++
+	if violCount[key] > 3 {
+		return
+	}
 	b, _ := json.Marshal(line{K: "viol", Key: key, Desc: desc, In: in})
 	out.Write(b)
 	out.WriteByte('\n')
